@@ -21,6 +21,7 @@ from statham.schema.elements import Object
 from statham.schema.elements.meta import ObjectMeta, RESERVED_PROPERTIES
 from statham.schema.parser import _parse_attribute_name, _title_format, parse
 from statham.serializers import serialize_python
+from statham.serializers.orderer import get_children
 
 PROP = "C12"
 LEVEL = "model_checking"
@@ -205,6 +206,21 @@ def behavioural_property(st, name):
             st.violation("generated-class-differs", "property name %r (attribute %r): the generated class has attributes %s and is %sequal to the parsed model" % (name, py, list(gns["T"].properties) if "T" in gns else None, "" if gns.get("T") == model else "not "), {**case, "module": text[:500]})
     except Exception as exc:
         st.violation("generated-module-broken:%s" % type(exc).__name__, "property name %r (attribute %r): %r" % (name, py, exc), case)
+    # objects the parser visits twice (type list, sibling composition keyword) must record the JSON name just the same
+    for vlabel, variant in (("type-list", {**schema, "type": ["object", "null"]}), ("sibling-anyOf", {**schema, "anyOf": [{}]}), ("required+not", {**schema, "required": [name], "not": {"required": ["zz"]}})):
+        kv, mv = impl.do_parse(variant)
+        if kv != impl.ELEMENT:
+            st.violation("unusable:parse-%s:%s" % (kv, vlabel), "property name %r (%s): %r" % (name, vlabel, mv), case)
+            continue
+        classes = [c for c in [mv] + list(get_children(mv)) if isinstance(c, ObjectMeta)]
+        srcs = [p.source for c in classes[:1] for p in c.properties.values()]
+        if srcs != [name]:
+            st.violation("source-not-recorded:%s" % vlabel, "property name %r (%s): the model records sources %r" % (name, vlabel, srcs), {**case, "variant": vlabel})
+        else:
+            ka, _ = impl.do_call(mv, {name: "v"})
+            kb, _ = impl.do_call(mv, {name: 1})
+            if ka != impl.ACCEPT or kb == impl.ACCEPT:
+                st.violation("unusable:variant-verdict:%s" % vlabel, "property name %r (%s): {name:'v'} -> %s, {name:1} -> %s" % (name, vlabel, ka, kb), {**case, "variant": vlabel})
     k3, _ = impl.do_call(model, {name: 1})
     if k3 == impl.ACCEPT:
         st.violation("unusable:property-schema-ignored", "property name %r: the property's own schema is not applied" % name, case)
